@@ -976,3 +976,7 @@ func flattenAtoms(as []Atom) []Atom {
 	}
 	return out
 }
+
+// ByteLane exposes byteLane: v is byte #lane (0 = least significant) of the
+// integer src, srcBytes wide.
+func ByteLane(v ssa.Value) (src ssa.Value, lane, srcBytes int, ok bool) { return byteLane(v) }
